@@ -185,7 +185,9 @@ class ProgressivelyTerminalDecider(BaseDecider):
             else:
                 return target - self.grammar.get_distance_to_terminal(n)
 
-        weights = [w(alt) * self.grammar.get_weights()[alt] for alt in alternatives]
+        production_weights = self.grammar.get_weights()
+        # alternatives of a Union need not be grammar symbols (e.g. list[int]): they count as weight 1
+        weights = [w(alt) * production_weights.get(alt, 1.0) for alt in alternatives]
         return self.random.choice_weighted(alternatives, weights)
 
 
